@@ -837,6 +837,63 @@ def check_blocks(ctx, n):
             ctx.disagree("stepsize.block", case, bad, None, oracle=oracle_block)
 
 
+# --------------------------------------------------------------------------
+# history / aliasing: one step-size object serving two optimizers in turn
+
+
+def _reuse_runs(case):
+    """records of the second solver when its policy object served `case["first"]` before, and with a fresh object"""
+    c1 = {**case["first"], "policy": case["policy"]}
+    c2 = {**case["second"], "policy": case["policy"]}
+    s1, pol = G.make_solver(c1)
+    try:
+        for _ in range(c1["steps"]):
+            s1.step()
+    except Exception:  # noqa: BLE001
+        pass
+    try:
+        used = G.run_real(c2, pol=pol)
+    except Exception as e:  # noqa: BLE001
+        used = [{"raised": common.err_kind(e), "raised_type": type(e).__name__, "construct": True}]
+    return used, G.run_real(c2)
+
+
+def oracle_reuse(case):
+    """PGM.__init__ re-attaches the step-size object (internal_init): the history of the first optimizer must not reach the
+    second one — same L and iterates as with a fresh object, at every step"""
+    used, fresh = _reuse_runs(case)
+    for i, (a, b_) in enumerate(zip(used, fresh)):
+        if bool(a.get("raised")) != bool(b_.get("raised")):
+            return {"step": i, "why": "a re-used step-size object makes the second optimizer raise / not raise, unlike a fresh one",
+                    "reused": a.get("raised_type"), "fresh": b_.get("raised_type")}
+        if a.get("raised"):
+            break
+        if not _rel(a["L"], b_["L"], 4, 1e-12) or not _vec_close(a["x"], b_["x"], 1e-10):
+            return {"step": i, "why": "a step-size object that served another optimizer before does not behave like a fresh one "
+                                      "(state carried over the re-attachment)", "L_reused": a["L"], "L_fresh": b_["L"],
+                    "x_reused": a["x"].tolist(), "x_fresh": b_["x"].tolist(), "policy": case["policy"]}
+    if len(used) != len(fresh):
+        return {"why": "different number of completed steps", "reused": len(used), "fresh": len(fresh)}
+    return None
+
+
+def check_reuse(ctx, n):
+    rng = ctx.rng
+    for _ in range(n):
+        pol = G.gen_policy(rng, ["bb", "abb", "ls", "rls"][int(rng.integers(0, 4))])
+        if pol.get("maxiter") == 0:
+            pol["maxiter"] = 3
+        fl = ["diag-pos", "dense-psd", "diag-indef", "complex-herm"][int(rng.integers(0, 4))]
+        first = {**G.gen_problem(rng, fl), "accel": bool(rng.integers(0, 2)), "steps": int(rng.integers(2, 5))}
+        second = {**G.gen_problem(rng, fl), "accel": bool(rng.integers(0, 2)), "steps": int(rng.integers(2, 5))}
+        case = {"what": "reuse", "policy": pol, "first": first, "second": second}
+        ctx.case({"what": "reuse", "policy": pol["kind"], "sizes": [len(first["x0"]), len(second["x0"])]}, json.dumps(case, sort_keys=True))
+        ctx.count(f"reuse:{pol['kind']}:{'same' if len(first['x0']) == len(second['x0']) else 'other'}-size")
+        bad = oracle_reuse(case)
+        if bad is not None:
+            ctx.disagree("stepsize.reuse", case, bad, "PolState.attach = PolState.init", oracle=oracle_reuse)
+
+
 def _corpus():
     d = common.CORPUS_DIR / PROP
     out = []
@@ -858,6 +915,7 @@ def correspond(ctx, model):
     check_stub_histories(ctx, model, ctx.n(60, 600))
     check_stub_search(ctx, model)
     check_blocks(ctx, ctx.n(12, 150))
+    check_reuse(ctx, ctx.n(16, 150))
     n = ctx.n(220, 1500)
     for _ in range(n):
         pol = G.gen_policy(ctx.rng)
@@ -949,6 +1007,12 @@ def search(ctx, model, why):
 def replay(ctx, model, case):
     common.setup_scico()
     c = case.get("case", case)
+    if c.get("what") == "reuse":
+        r = oracle_reuse(c)
+        print("replay:", "property FAILS on implementation:" if r else "no failure at this input", r)
+        if r:
+            ctx.violation({"kind": "failing-input", "case": c, "failing": r}, True, "replay")
+        return
     if c.get("what") == "block":
         r = oracle_block(c)
         print("replay:", "property FAILS on implementation:" if r else "no failure at this input", r)
